@@ -33,12 +33,15 @@ Definition body_to_raw (base : nat) (bh : list N) (hdr : option (list N)) (data 
 (* smbus_proto.rs:88-100  MCTPSMBusPacket::len *)
 Definition packet_len (hdr : option (list N)) (data : list N) : nat := (4 + 4 + body_len hdr data + 1)%nat.
 
-(* smbus_proto.rs:84-86  finalise: self.smbus_header.set_byte_count(self.len() as u8 - 4) *)
-Definition finalise (ovf : bool) (smb : list N) (len : nat) : res (list N) :=
-  bc <- u8_sub ovf (N.of_nat len mod 256) 4 ;;
-  Val (set_field sh_byte_count smb bc).
+(* smbus_proto.rs:88-90  finalise: self.smbus_header.set_byte_count((self.len() - 4) as u8);
+   len() >= 10 always, so the usize subtraction cannot underflow *)
+Definition finalise (smb : list N) (len : nat) : list N :=
+  set_field sh_byte_count smb (N.of_nat (len - 4) mod 256).
 
-(* smbus_proto.rs:108-123  MCTPSMBusPacket::to_raw_bytes *)
+(* the longest packet the one-byte byte count can describe: smbus_proto.rs MCTP_SMBUS_MAX_PACKET_LEN *)
+Definition MAX_PACKET_LEN : nat := 259.
+
+(* smbus_proto.rs:112-127  MCTPSMBusPacket::to_raw_bytes *)
 Definition packet_to_raw (smb tr bh : list N) (hdr : option (list N)) (data : list N) : W nat :=
   _ <~ wr 0 smb ;;
   _ <~ wr 4 tr ;;
@@ -74,15 +77,17 @@ Definition generate_smbus_header (addr dest : N) : list N :=
   let h := set_field sh_source_addr h addr in
   set_field sh_source_rw h 1.
 
-(* mctp_traits.rs:131-213  the four generate_*_packet_bytes bodies differ only in the message type *)
+(* mctp_traits.rs:134-232  the four generate_*_packet_bytes bodies differ only in the message type *)
 Definition generate_packet_bytes (ovf : bool) (addr dest mt : N)
            (hdr : option (list N)) (data : list N) : W (option nat) :=
   let smb := generate_smbus_header addr dest in
   let tr := generate_transport_header addr dest in
   bh <~ wlift (body_header_new false mt) ;;
-  smb' <~ wlift (finalise ovf smb (packet_len hdr data)) ;;
-  n <~ packet_to_raw smb' tr bh hdr data ;;
-  wret (Some n).
+  let smb' := finalise smb (packet_len hdr data) in
+  if (MAX_PACKET_LEN <? packet_len hdr data)%nat then wret None
+  else
+    n <~ packet_to_raw smb' tr bh hdr data ;;
+    wret (Some n).
 
 Definition MT_CONTROL := 0. Definition MT_PCI := 126. Definition MT_IANA := 127.
 
